@@ -134,6 +134,7 @@ _EM_PRE = [
 _EM_INV = [
     "len(window_posterior) == total_win_length and len(context_ind) == total_win_length and len(win_offset) == len(windows)",
     "len(posterior_data) == len(prior_data)",
+    "len(col_ind) == prior_indptr[target_gram_ind + 1] - prior_indptr[target_gram_ind]",
     # a positive responsibility is only ever recorded for a context that was found in the row
     "forall(0, total_win_length, lambda p: implies(window_posterior[p] > 0, 0 <= context_ind[p] and context_ind[p] < len(col_ind)))",
 ]
